@@ -115,3 +115,44 @@ Proof.
   split; [lia|]. apply (stored_row m); auto. lia.
 Qed.
 End JointFacts.
+
+(* ---------- the n-step buffer paired with the prioritised buffer ----------
+   train_off_policy feeds both buffers in lockstep (the n-step buffer stores the fused record when it hands
+   out the 1-step transition that goes into the prioritised buffer) and gathers the n-step rows with the
+   indices sampled from the prioritised buffer: sample_from_indices(idxs) = storage[idxs]. *)
+Definition sample_from_indices {A} (b : R.rb A) (idxs : list nat) : list (option A) :=
+  map (fun i => nth i (R.store b) None) idxs.
+
+Lemma slot_pos c k i : 0 < c -> i < Nat.min k c ->
+  exists p, p < k /\ k <= p + c /\ p mod c = i.
+Proof.
+  intros Hc Hi. destruct (Nat.le_gt_cases k c) as [Hk|Hk].
+  - exists i. repeat split; try lia. apply Nat.mod_small. lia.
+  - destruct (RP.mod_decomp c k Hc) as (q & r & Ek & Hr & _ & _).
+    assert (1 <= q) by nia.
+    destruct (Nat.lt_ge_cases i r).
+    + exists (q * c + i). repeat split; try nia. apply RP.mod_qr. lia.
+    + exists ((q - 1) * c + i). repeat split; try nia. apply RP.mod_qr. lia.
+Qed.
+
+(* two ring buffers of the same capacity whose histories have the same length (written in lockstep):
+   every index below len addresses, in BOTH, the record of one and the same stream position p *)
+Theorem paired_rows_aligned_lemma {A B} c (h1 : list A) (h2 : list B) (b1 : R.rb A) (b2 : R.rb B) idxs :
+  0 < c -> RP.Inv c h1 b1 -> RP.Inv c h2 b2 -> length h1 = length h2 ->
+  Forall (fun i => i < R.size b1) idxs ->
+  R.size b2 = R.size b1 /\
+  Forall (fun i => exists p x y, nth_error h1 p = Some x /\ nth_error h2 p = Some y /\ p mod c = i /\
+                     nth i (R.store b1) None = Some x /\ nth i (R.store b2) None = Some y) idxs /\
+  length (sample_from_indices b2 idxs) = length idxs.
+Proof.
+  intros Hc I1 I2 Hlen HF. split; [rewrite (RP.inv_size _ _ _ I1), (RP.inv_size _ _ _ I2); lia|].
+  split; [|unfold sample_from_indices; apply map_length].
+  rewrite Forall_forall in *. intros i Hi. specialize (HF i Hi).
+  rewrite (RP.inv_size _ _ _ I1) in HF.
+  destruct (slot_pos c (length h1) i Hc HF) as (p & Hp & Hw & Hm).
+  destruct (nth_error h1 p) as [x|] eqn:E1; [|apply nth_error_None in E1; lia].
+  destruct (nth_error h2 p) as [y|] eqn:E2; [|apply nth_error_None in E2; lia].
+  exists p, x, y. repeat split; auto.
+  - rewrite <- Hm. apply (RP.inv_recent _ _ _ I1); auto.
+  - rewrite <- Hm. apply (RP.inv_recent _ _ _ I2); auto. lia.
+Qed.
